@@ -25,7 +25,38 @@ import (
 	"verif/vk"
 )
 
-const repoDir = "/repo"
+// repoDir is the tree under verification: /repo, unless VERIF_REPO names another checkout
+// (used only for background experiments on a snapshot; registered checks never set it).
+var repoDir = func() string {
+	if d := os.Getenv("VERIF_REPO"); d != "" {
+		return d
+	}
+	return "/repo"
+}()
+
+// modArgs returns the -modfile argument that redirects the ch-go replacement when the tree
+// under verification is not /repo.
+func modArgs() []string {
+	if repoDir == "/repo" {
+		return nil
+	}
+	b, err := os.ReadFile(filepath.Join(verifDir, "go.mod"))
+	if err != nil {
+		harnessErr("%v", err)
+	}
+	alt := strings.ReplaceAll(string(b), "=> /repo", "=> "+repoDir)
+	alt = strings.ReplaceAll(alt, "=> ./gen/", "=> "+filepath.Join(verifDir, "gen")+"/")
+	os.MkdirAll(filepath.Join(verifDir, "gen/tmp"), 0o755)
+	os.WriteFile(filepath.Join(verifDir, "gen/tmp/alt.mod"), []byte(alt), 0o644)
+	sum, _ := os.ReadFile(filepath.Join(verifDir, "go.sum"))
+	os.WriteFile(filepath.Join(verifDir, "gen/tmp/alt.sum"), sum, 0o644)
+	return []string{"-modfile=" + filepath.Join(verifDir, "gen/tmp/alt.mod")}
+}
+
+func goArgs(args ...string) []string {
+	// args[0] is the go subcommand ("build" / "test"): flags go right after it
+	return append(append([]string{args[0]}, modArgs()...), args[1:]...)
+}
 
 // verifDir is the root of the verification tree: the working directory when it holds this
 // module (so that a snapshot of /verif runs on its own files), /verif otherwise.
@@ -219,18 +250,18 @@ func build(fl string) string {
 	t0 := time.Now()
 	switch fl {
 	case "seq":
-		out, err = run(verifDir, "go", "build", "-o", bin, "./cmd/seqw")
+		out, err = run(verifDir, "go", goArgs("build", "-o", bin, "./cmd/seqw")...)
 	case "seq-purego":
-		out, err = run(verifDir, "go", "build", "-tags", "purego", "-o", bin, "./cmd/seqw")
+		out, err = run(verifDir, "go", goArgs("build", "-tags", "purego", "-o", bin, "./cmd/seqw")...)
 	case "seqcap":
 		genCapOverlay()
-		out, err = run(verifDir, "go", "build", "-overlay", "gen/overlay_cap.json", "-o", bin, "./cmd/seqw")
+		out, err = run(verifDir, "go", goArgs("build", "-overlay", "gen/overlay_cap.json", "-o", bin, "./cmd/seqw")...)
 	case "sched":
 		genOverlay()
-		out, err = run(verifDir, "go1.26", "test", "-c", "-vet=off", "-overlay", "gen/overlay.json", "-o", bin, "./checks/sched")
+		out, err = run(verifDir, "go1.26", goArgs("test", "-c", "-vet=off", "-overlay", "gen/overlay.json", "-o", bin, "./checks/sched")...)
 	case "sched-race":
 		genOverlay()
-		out, err = run(verifDir, "go1.26", "test", "-c", "-vet=off", "-race", "-overlay", "gen/overlay.json", "-o", bin, "./checks/sched")
+		out, err = run(verifDir, "go1.26", goArgs("test", "-c", "-vet=off", "-race", "-overlay", "gen/overlay.json", "-o", bin, "./checks/sched")...)
 	default:
 		harnessErr("unknown flavour %s", fl)
 	}
@@ -259,17 +290,17 @@ func setup() {
 				var err error
 				switch fl {
 				case "seq":
-					out, err = run(verifDir, "go", "build", "-o", bin, "./cmd/seqw")
+					out, err = run(verifDir, "go", goArgs("build", "-o", bin, "./cmd/seqw")...)
 				case "seq-purego":
-					out, err = run(verifDir, "go", "build", "-tags", "purego", "-o", bin, "./cmd/seqw")
+					out, err = run(verifDir, "go", goArgs("build", "-tags", "purego", "-o", bin, "./cmd/seqw")...)
 				case "seqcap":
 					genCapOverlay()
-					out, err = run(verifDir, "go", "build", "-overlay", "gen/overlay_cap.json", "-o", bin, "./cmd/seqw")
+					out, err = run(verifDir, "go", goArgs("build", "-overlay", "gen/overlay_cap.json", "-o", bin, "./cmd/seqw")...)
 				case "sched":
 					genOverlay()
-					out, err = run(verifDir, "go1.26", "test", "-c", "-vet=off", "-overlay", "gen/overlay.json", "-o", bin, "./checks/sched")
+					out, err = run(verifDir, "go1.26", goArgs("test", "-c", "-vet=off", "-overlay", "gen/overlay.json", "-o", bin, "./checks/sched")...)
 				case "sched-race":
-					out, err = run(verifDir, "go1.26", "test", "-c", "-vet=off", "-race", "-overlay", "gen/overlay.json", "-o", bin, "./checks/sched")
+					out, err = run(verifDir, "go1.26", goArgs("test", "-c", "-vet=off", "-race", "-overlay", "gen/overlay.json", "-o", bin, "./checks/sched")...)
 				}
 				if err != nil {
 					harnessErr("setup: build %s: %v\n%s", fl, err, out)
